@@ -92,7 +92,7 @@ def dispatchAgrees (w0 : IWorld) (ops : List Op) (stepLogs : List (List String))
   if !plain then none else
   let regs : List Dispatch.Watcher := w0.regs.map fun x =>
     { id := x.id, params := x.params.filterMap (fun n => keyIndex keys ⟨n, x.what⟩), onlychanged := true,
-      queued := x.queued, precedence := x.precedence, body := 0, cb := x.id }
+      queued := x.queued, precedence := x.precedence, body := 0, cb := x.id, uid := x.id }
   let cfg : Dispatch.Cfg := { bounds := keys.map (fun _ => (none, none)), bodies := [[]] }
   let dw0 : Dispatch.World := { vals := w0.vals.map (·.2), regs := regs, batch := false, trigger := false, events := [], queued := [] }
   match ops.mapM (encOp keys) with
@@ -115,6 +115,12 @@ def handle (req : Json) : Except String Json := do
     let q ← t.getArr?
     return ((⟨← q[0]!.getStr?, ← q[1]!.getStr?⟩, ← q[2]!.getInt?) : Key × Int)
   let ops ← (← getArr case "ops").toList.mapM parseOp
+  -- assignments made by on_init methods: [[method name, defining class, parameter, value]]
+  let rawAssigns ← match getOpt case "assigns" with
+    | some a => (← a.getArr?).toList.mapM fun x => do
+        let q ← x.getArr?
+        return (← q[0]!.getStr?, ← q[1]!.getNat?, ← q[2]!.getStr?, ← q[3]!.getInt?)
+    | none => pure []
   let fuel := 64
   let optJ : Option String → Json := fun | some s => Json.str s | none => Json.null
   let wf := wfMroB h && decide (c < h.length)
@@ -127,7 +133,12 @@ def handle (req : Json) : Except String Json := do
       ("branches", Json.arr #[Json.str s!"create:{errName e}", Json.str s!"impl-create:{implCreate.getD "ok"}"])]
   | .ok tables =>
     let table := tables.getD c []
-    let w0 := fns.foldl (fun w f => fnWatch w f.1 f.2) (instantiate table vals)
+    -- the declaration the instantiated class resolves decides whether (and what) a method assigns
+    let assigns : Assigns := rawAssigns.filterMap fun (n, k, p, v) =>
+      match resolveMethod h c n with
+      | some (k', _) => if k' = k then some (n, (p, v)) else none
+      | none => none
+    let w0 := fns.foldl (fun w f => fnWatch w f.1 f.2) (instantiateA table vals assigns)
     let (_, revSteps) := ops.foldl (fun (acc : IWorld × List (Bool × List String)) op =>
         let w := { acc.1 with log := [] }
         let (r, w') := runOp w op
@@ -151,8 +162,8 @@ def handle (req : Json) : Except String Json := do
     let applicable := wf && (getOpt impl "create").isNone
     let (nImpl, sImpl) ← if applicable then (do
         let o ← parseObs impl
-        pure (specAll h fuel c fns vals ops o)) else pure (0, none)
-    let (_, sModel0) := specAll h fuel c fns vals ops modelObs
+        pure (specAll h fuel c fns vals ops o assigns)) else pure (0, none)
+    let (_, sModel0) := specAll h fuel c fns vals ops modelObs assigns
     -- a case on which the oracle fails must still be reproduced exactly by the model (the model mirrors
     -- the code as written): otherwise report it as a new, unclassified violation
     let sImpl := if sImpl.isSome && !(impl == model) then some ("model differs from implementation on an oracle-failing case: " ++ sImpl.getD "") else sImpl
@@ -170,6 +181,7 @@ def handle (req : Json) : Except String Json := do
       (if groupCounts.any (· == 1) then ["install:one-group"] else []) ++
       (if table.any (·.onInit) then ["install:on_init"] else []) ++
       (if !fns.isEmpty then ["install:function-form"] else []) ++
+      (if !assigns.isEmpty then ["init:assigning-on_init"] else []) ++
       (ops.map fun | .simple (.set k _) => (if k.what = "value" then "op:set" else "op:setslot")
                    | .simple (.update _) => "op:update" | .batch _ => "op:batch").eraseDups ++
       (if impl == model then ["json:model-equals-impl"] else ["json:model-differs"]) ++
